@@ -31,6 +31,7 @@ type Engine struct {
 	specs     map[string]*specFn
 	fnByKey   map[string]*ssa.Function
 	allFns    map[*ssa.Function]bool
+	ctOverride map[string]*Contract // contracts applied under an inferred renaming of locals (rename.go)
 
 	globals   map[*ssa.Global]int
 	funcs     map[*ssa.Function]int
@@ -330,6 +331,9 @@ func (eng *Engine) ssaSize(fn *ssa.Function) int {
 }
 
 func (eng *Engine) contractFor(fn *ssa.Function) *Contract {
+	if c := eng.ctOverride[shortFn(fn)]; c != nil {
+		return c
+	}
 	return eng.contracts[shortFn(fn)]
 }
 
